@@ -41,7 +41,15 @@ def r1_sqlite(ctx: Context, all_sites) -> None:
     targets.append(br)
     for t in targets:
         res = sqlite_critical_section(repo, t, all_sites)
+        opt = False
+        if t.name == "retrieve_invocation" and t.cls is not None:
+            from .c08 import _optimistic_claim
+
+            opt, _ = _optimistic_claim(ctx, t.cls, t, all_sites)
         for r in res:
+            if opt and not r.ok and ("::lock-before-read::" in r.key or "::no-commit-between::" in r.key):
+                ctx.ok("R1", r.key, r.where, "optimistic claim on never-reused AUTOINCREMENT ids (C08/R1)")
+                continue
             ctx.add("R1", r.key, r.ok, r.where, r.detail)
     ctx.floor("R1", "functions with an atomic read-write contract", len(targets), 2)
 
@@ -115,6 +123,22 @@ def r2_r3_mem(ctx: Context) -> None:
     for p in providers:
         ok, why = _provider_atomic(mem, p)
         ctx.add("R3", f"{p.qualname}::atomic-get-or-create", ok, p.loc(), why)
+    # one lock per invocation for as long as anybody may be waiting on it: entries of the lock table are never removed
+    # while the store lives (a waiter holds the OLD lock object, the next arrival would create a NEW one: two holders)
+    tables = set(seen_tables)
+    for p in providers:
+        tables |= {self_attr(n) for n in walk_no_nested(p.node) if isinstance(n, (ast.Subscript, ast.Call)) and self_attr(n)}
+    tables.discard(None)
+    removed = []
+    for m in mem.methods.values():
+        if m.name in ("purge", "__init__"):
+            continue
+        for n in walk_no_nested(m.node):
+            if isinstance(n, ast.Call) and isinstance(n.func, ast.Attribute) and n.func.attr in ("pop", "popitem", "clear") and self_attr(n.func) in tables and isinstance(n.func.value, ast.Attribute):
+                removed.append((m, n))
+            elif isinstance(n, ast.Delete) and any(isinstance(t, ast.Subscript) and self_attr(t) in tables for t in n.targets):
+                removed.append((m, n))
+    ctx.add("R3", f"{mem.qualname}::per-invocation-locks-are-never-discarded", not removed, removed[0][0].loc(removed[0][1]) if removed else f.loc(), "" if not removed else f"`{ast.unparse(removed[0][1])[:60]}` in {removed[0][0].name} removes a per-invocation lock while another thread may be blocked on that very object: the blocked thread and the next arrival (which creates a fresh lock) both enter read-validate-write")
 
 
 def _helper_writes_record(f: FuncInfo, c: ast.Call) -> bool:
